@@ -625,6 +625,8 @@ fn cuts_of(c: &Ctx, ids: &[u64]) -> String {
 pub struct Runner<'a> {
     pub drv: Option<&'a mut Drv>,
     pub check_reads_with_model: bool,
+    /// C11: a block cache and descriptor table shared with other trees that are alive at the same time
+    pub shared: Option<(Arc<lsm_tree::Cache>, Option<Arc<lsm_tree::DescriptorTable>>)>,
 }
 
 impl Runner<'_> {
@@ -975,8 +977,13 @@ fn run_case_inner(case: &Case, runner: &mut Runner) -> Outcome {
     let dir = tempfile::tempdir_in(crate::scratch_root()).unwrap();
     let seqno = SequenceNumberCounter::default();
     let vis = SequenceNumberCounter::default();
-    let cache = Arc::new(if cfg.cache_kb == 0 { lsm_tree::Cache::with_capacity_bytes(0) } else { lsm_tree::Cache::with_capacity_bytes(cfg.cache_kb * 1024) });
-    let fds = if cfg.fd_cap == 0 { None } else { Some(Arc::new(lsm_tree::DescriptorTable::new(cfg.fd_cap as usize))) };
+    let (cache, fds) = match &runner.shared {
+        Some((c, f)) => (c.clone(), f.clone()),
+        None => (
+            Arc::new(if cfg.cache_kb == 0 { lsm_tree::Cache::with_capacity_bytes(0) } else { lsm_tree::Cache::with_capacity_bytes(cfg.cache_kb * 1024) }),
+            if cfg.fd_cap == 0 { None } else { Some(Arc::new(lsm_tree::DescriptorTable::new(cfg.fd_cap as usize))) },
+        ),
+    };
     let flog: FLog = Arc::new(Mutex::new(vec![]));
     let weak_keys: Vec<K> = keys.iter().take(2).cloned().collect();
     let once_keys: Vec<K> = if cfg.filter_seed.is_some() { keys.iter().rev().take(2).cloned().collect() } else { vec![] };
@@ -1631,7 +1638,7 @@ fn failure_kind(o: &Outcome) -> Option<String> {
 pub fn shrink(case: &Case, with_model: bool) -> Case {
     let mut drv_holder = if with_model { Some(Drv::spawn()) } else { None };
     let mut run = |c: &Case| -> Option<String> {
-        let mut r = Runner { drv: drv_holder.as_mut(), check_reads_with_model: true };
+        let mut r = Runner { drv: drv_holder.as_mut(), check_reads_with_model: true, shared: None };
         failure_kind(&run_case(c, &mut r))
     };
     let Some(kind) = run(case) else { return case.clone() };
@@ -1684,7 +1691,7 @@ pub fn campaign(profile: Profile, blob_mode: u8, seed: u64, cases: u64, max_ops:
                         _ => rng.chance(1, 2),
                     };
                     let case = gen_case(&mut rng, profile, blob, max_ops);
-                    let mut runner = Runner { drv: drv.as_mut(), check_reads_with_model: true };
+                    let mut runner = Runner { drv: drv.as_mut(), check_reads_with_model: true, shared: None };
                     let o = run_case(&case, &mut runner);
                     let failed = o.disagreement.is_some() || !o.oracle_failures.is_empty();
                     let mut g = results.lock().unwrap();
@@ -1736,7 +1743,7 @@ pub fn campaign(profile: Profile, blob_mode: u8, seed: u64, cases: u64, max_ops:
             shrunk += 1;
             let s = shrink(&case, with_model);
             let mut d = if with_model { Some(Drv::spawn()) } else { None };
-            let mut r = Runner { drv: d.as_mut(), check_reads_with_model: true };
+            let mut r = Runner { drv: d.as_mut(), check_reads_with_model: true, shared: None };
             let so = run_case(&s, &mut r);
             if so.disagreement.is_some() || !so.oracle_failures.is_empty() { (s, so) } else { (case.clone(), o) }
         } else {
@@ -1755,11 +1762,76 @@ pub fn campaign(profile: Profile, blob_mode: u8, seed: u64, cases: u64, max_ops:
     }
 }
 
+/// C11: the same history on `k` trees with DIFFERENT physical configurations that share ONE block cache and ONE
+/// descriptor table and are alive at the same time (their table ids coincide); every tree is validated against the
+/// same configuration-free model and ordered-map oracle, so any cross-tree interference shows as a wrong read.
+pub fn shared_cache_campaign(seed: u64, cases: u64, max_ops: u64, k: usize, st: &mut Stats) {
+    for case_no in 0..cases {
+        let mut rng = Rng::new(seed.wrapping_mul(911).wrapping_add(case_no));
+        let base = gen_case(&mut rng, Profile::Core, false, max_ops);
+        let cache = Arc::new(lsm_tree::Cache::with_capacity_bytes(*rng.pick(&[0u64, 1024, 64 * 1024, 8 * 1024 * 1024])));
+        let fds = match rng.below(3) { 0 => None, 1 => Some(Arc::new(lsm_tree::DescriptorTable::new(1))), _ => Some(Arc::new(lsm_tree::DescriptorTable::new(3))) };
+        let mut variants = vec![];
+        for i in 0..k {
+            let mut c = base.clone();
+            c.cfg.block_size = *rng.pick(&[1u32, 16, 64, 256, 4096]);
+            c.cfg.restart = *rng.pick(&[1u8, 2, 16]);
+            c.cfg.hash_ratio = *rng.pick(&[0u32, 75, 800]);
+            c.cfg.part_index = rng.chance(1, 2);
+            c.cfg.part_filter = rng.chance(1, 2);
+            c.cfg.pin = rng.chance(1, 2);
+            c.cfg.bloom = rng.below(3) as u8;
+            c.cfg.blob = if i % 2 == 1 && rng.chance(1, 2) { Some((8, 64)) } else { None };
+            variants.push(c);
+        }
+        let outcomes: Vec<(Case, Outcome)> = std::thread::scope(|sc| {
+            let hs: Vec<_> = variants
+                .into_iter()
+                .map(|c| {
+                    let shared = Some((cache.clone(), fds.clone()));
+                    sc.spawn(move || {
+                        let mut d = Drv::spawn();
+                        let mut r = Runner { drv: Some(&mut d), check_reads_with_model: true, shared };
+                        let o = run_case(&c, &mut r);
+                        (c, o)
+                    })
+                })
+                .collect();
+            hs.into_iter().map(|h| h.join().unwrap()).collect()
+        });
+        st.evaluations += 1;
+        st.count("c11.shared_cache_groups");
+        let mut ok = true;
+        for (c, o) in outcomes {
+            for (kk, v) in &o.counters {
+                st.add(kk, *v);
+            }
+            if let Some(d) = &o.disagreement {
+                ok = false;
+                st.disagreements.push(format!("shared cache group {case_no} (seed {seed}): {d}\n   case: {}", c.show().lines().take(3).collect::<Vec<_>>().join(" ; ")));
+            }
+            for f in &o.oracle_failures {
+                ok = false;
+                st.oracle_failures.push(format!("C11 trees sharing one cache / descriptor table (group {case_no}, seed {seed}): {f}"));
+            }
+            if ok && o.nontrivial {
+                st.nontrivial_case(&format!("{case_no}/{}", c.show()));
+            }
+        }
+        if ok {
+            st.count("ib.histories_validated");
+        }
+        if st.oracle_failures.len() > 6 {
+            break;
+        }
+    }
+}
+
 pub fn replay(path: &str, with_model: bool, st: &mut Stats) {
     let text = std::fs::read_to_string(path).unwrap();
     let case = Case::parse(&text).expect("cannot parse replay file");
     let mut d = if with_model { Some(Drv::spawn()) } else { None };
-    let mut r = Runner { drv: d.as_mut(), check_reads_with_model: true };
+    let mut r = Runner { drv: d.as_mut(), check_reads_with_model: true, shared: None };
     let o = run_case(&case, &mut r);
     st.evaluations += 1;
     for f in o.oracle_failures {
